@@ -132,6 +132,23 @@ type c05Env struct {
 	m, tw, nc      *mux
 	trace          []map[string]interface{}
 	upd            *c05Update // nil until the first hot update of this history
+	// forwarding-header class: the shape of the forwarding headers of each pool request
+	// (keyed by c05FwdKey); nil in the other classes
+	fwdShape map[string]string
+}
+
+func c05FwdKey(q *gReq) string { return fmt.Sprint(q.Headers, q.RemoteAddr) }
+
+// c05AddrClass: what kind of client address the gateway derives for the request: "" for an IP
+// address, otherwise "none" (nothing derivable) or "unparsable" (a value that is no address).
+func c05AddrClass(c string) string {
+	switch {
+	case c == "":
+		return "none"
+	case net.ParseIP(c) == nil:
+		return "unparsable"
+	}
+	return ""
 }
 
 func c05Key(q *gReq) string { return q.Host + "\x00" + q.Method + "\x00" + q.Path }
@@ -197,6 +214,39 @@ func (e *c05Env) step(q gReq) {
 	r.Eval(1)
 	r.Cover(fmt.Sprintf("mux/%s/%s/cache=%v/entry=%s/twin=%d%s", class, level, spec.CacheSize > 0, entry, twin.Status, updCover))
 	r.Count("class_"+class, 1)
+	addrTag := ""
+	if e.fwdShape != nil {
+		shape, ac := e.fwdShape[c05FwdKey(&q)], c05AddrClass(c)
+		r.Count("fwd_shape_"+shape, 1)
+		r.Cover(fmt.Sprintf("fwd/%s/addr=%s/%s/%s/cache=%v/twin=%d", shape, ac, class, level, spec.CacheSize > 0, twin.Status))
+		if ac != "" {
+			addrTag = ":derived-client-address=" + ac
+			// such an address lies in no list: every filter applying to it decides by its
+			// blockByDefault alone
+			ref := refRoute(e.twinSpec, &q, missing)
+			lv := []struct {
+				name string
+				f    *gIPF
+			}{{"server", spec.IPF}, {"rule", nil}, {"path", nil}}
+			if ref.Rule >= 0 {
+				lv[1].f, lv[2].f = spec.Rules[ref.Rule].IPF, spec.Rules[ref.Rule].Paths[ref.PathIdx].IPF
+			}
+			for _, l := range lv {
+				if l.f == nil {
+					continue
+				}
+				switch {
+				case class == "must-refuse" && l.f.BlockByDefault:
+					r.Count("client_address_"+ac+"_refused_by_blockByDefault_true_of_"+l.name+"_filter", 1)
+					if hit, _ := muxCacheProbe(e.m, &q); hit {
+						r.Count("client_address_"+ac+"_refused_by_blockByDefault_true_key_in_route_cache", 1)
+					}
+				case class == "must-pass" && !l.f.BlockByDefault && twin.Status == 200:
+					r.Count("client_address_"+ac+"_let_through_by_blockByDefault_false_of_"+l.name+"_filter", 1)
+				}
+			}
+		}
+	}
 	if e.upd != nil {
 		r.Count("requests_after_a_hot_update", 1)
 		if spec.CacheSize > 0 && keyBefore == "route" {
@@ -264,7 +314,10 @@ func (e *c05Env) step(q gReq) {
 				"verdict_before_update": before.class, "key_in_route_cache_before_update": keyBefore,
 			}
 		}
-		r.Violation("ipfilter-mux:"+bad+":deny-level="+level+fmt.Sprintf(":cache=%v", spec.CacheSize > 0)+updTag, detail)
+		if e.fwdShape != nil {
+			detail["forwarding_headers_shape"] = e.fwdShape[c05FwdKey(&q)]
+		}
+		r.Violation("ipfilter-mux:"+bad+":deny-level="+level+fmt.Sprintf(":cache=%v", spec.CacheSize > 0)+updTag+addrTag, detail)
 	}
 }
 
@@ -438,20 +491,22 @@ func (e *c05Env) hotUpdate(ns *gSpec, changed, kind string, pool []gReq) bool {
 func TestVerif_C05_Mux(t *testing.T) {
 	r := kit.Start(t, "C05")
 	defer r.Finish()
-	r.Rule("part b: seeded HTTPServer specs with IP filters at server/rule/path level (and header conditions in half of them), cacheSize in {0,1,2,8,64}; every third spec is a 'stacked' server: 2-3 rules whose host conditions (catch-all, exact, regexps) all accept the same host, most of them with their own rule-level filter, cacheSize>0, and a pool of 4 request shapes for that host each asked by 3 different clients, so that a route is first cached by a client the filters let through and then asked for by a client that an earlier host-matching rule (which does not own the path) denies; histories of 40 requests drawn from the pool, client addresses given via RemoteAddr / a public X-Forwarded-For / X-Real-IP; each request also goes to a twin mux whose spec has every filter removed and, when the cache is on, to a twin with the same filters but no cache; must-refuse (denied by the server filter, or by the rule/path filter of the route the twin picks): 4xx, handler never invoked, 403 when the twin finds a route; must-pass (no filter of the server, of any host-matching rule, or of the twin's path denies): identical to the twin; otherwise (denied only by the filter of another host-matching rule: whether that filter applies is left open) the outcome must not depend on the cache or on earlier requests, i.e. equal the cache-less twin's; UPDATE HISTORIES (a further 14% of servers of the same two kinds, cache on in 5 of 6): 3 phases of 12, 18 and 18 requests from the same pool, and between phases the RUNNING server gets a hot update (mux.reload) that leaves rules, hosts, paths and cacheSize alone and edits one ipFilter (server level / one rule / one path, preferably the ones serving a client of the pool): filter added, removed, replaced, an entry blocking a seen client added, edited to admit a seen client, blockByDefault flipped, or the same spec applied again; the client such an edit is about (preferably one whose route sits in the route cache) is the first to ask again after the update; every request after an update is judged by the same three rules against the filters of the spec NOW in force; a run must contain clients that the last update newly denies (server-, rule- and path-level updates each) and clients it newly admits asking for a route that sat in the route cache when the update came; distinct = (verdict class, level that denies, cache on?, cache entry found, twin status; after an update also: which filter the update changed, verdict before the update, what the cache held for the key before the update)")
-	r.Assume("client address = RemoteAddr host, or a single public X-Forwarded-For value, or X-Real-IP, as resolved by the realip library the server uses")
+	r.Rule("part b: seeded HTTPServer specs with IP filters at server/rule/path level (and header conditions in half of them), cacheSize in {0,1,2,8,64}; every third spec is a 'stacked' server: 2-3 rules whose host conditions (catch-all, exact, regexps) all accept the same host, most of them with their own rule-level filter, cacheSize>0, and a pool of 4 request shapes for that host each asked by 3 different clients, so that a route is first cached by a client the filters let through and then asked for by a client that an earlier host-matching rule (which does not own the path) denies; histories of 40 requests drawn from the pool, client addresses given via RemoteAddr / a public X-Forwarded-For / X-Real-IP; each request also goes to a twin mux whose spec has every filter removed and, when the cache is on, to a twin with the same filters but no cache; must-refuse (denied by the server filter, or by the rule/path filter of the route the twin picks): 4xx, handler never invoked, 403 when the twin finds a route; must-pass (no filter of the server, of any host-matching rule, or of the twin's path denies): identical to the twin; otherwise (denied only by the filter of another host-matching rule: whether that filter applies is left open) the outcome must not depend on the cache or on earlier requests, i.e. equal the cache-less twin's; UPDATE HISTORIES (a further 14% of servers of the same two kinds, cache on in 5 of 6): 3 phases of 12, 18 and 18 requests from the same pool, and between phases the RUNNING server gets a hot update (mux.reload) that leaves rules, hosts, paths and cacheSize alone and edits one ipFilter (server level / one rule / one path, preferably the ones serving a client of the pool): filter added, removed, replaced, an entry blocking a seen client added, edited to admit a seen client, blockByDefault flipped, or the same spec applied again; the client such an edit is about (preferably one whose route sits in the route cache) is the first to ask again after the update; every request after an update is judged by the same three rules against the filters of the spec NOW in force; a run must contain clients that the last update newly denies (server-, rule- and path-level updates each) and clients it newly admits asking for a route that sat in the route cache when the update came; FORWARDING HEADERS (a further 13% of servers of the same two kinds, a filter forced at the server level, on every rule, or on every path in turn, blockByDefault true in half of the filters): every request of the pool gets its client through X-Forwarded-For / X-Real-IP in one of 13 shapes: one public entry; one private entry; several private entries; an unparsable entry (\"unknown\", a host name, a truncated address, address:port); unparsable and private entries; private then public entries; public then private; unparsable then public; nothing usable in X-Forwarded-For plus X-Real-IP; X-Real-IP alone; an unparsable X-Real-IP; an empty X-Forwarded-For with X-Real-IP / with RemoteAddr only; separators with and without blanks; for five of these shapes NO client address is derivable (or the derived value is no address): such a client lies in no list, so each filter applying to it decides by blockByDefault alone: refused under the must-refuse rule when a filter applying to it has blockByDefault true, routed like the filter-less twin when all have it false; a run must contain such clients refused by a blockByDefault:true filter and let through to a backend by a blockByDefault:false filter at the server, the rule and the path level each, and one refused while its key sat in the route cache; distinct = (verdict class, level that denies, cache on?, cache entry found, twin status; after an update also: which filter the update changed, verdict before the update, what the cache held for the key before the update; forwarding class also: header shape, derived-address kind)")
+	r.Assume("client address = the one the gateway derives, re-stated in the harness after realip.FromRequest of the unchanged tree: the RemoteAddr host when neither X-Real-IP nor X-Forwarded-For carries a value; otherwise the first comma-separated X-Forwarded-For entry (blanks trimmed) that parses as an IP address outside loopback/private/link-local ranges; if there is none, the X-Real-IP value as sent, possibly empty; one header line per name. Which address a chain of headers SHOULD yield is not judged (the property takes the derived address as given); judged is only the property's table applied to it: a derived value that is empty or no IP address lies in neither the allowed nor the blocked list of any filter, hence is denied by a filter iff that filter's blockByDefault is set")
 	r.Assume("a spec update has been applied when mux.reload returned (requests and updates are sequential in these histories; concurrent updates are C11's subject): from then on 'the filter applying to it' means the filter of the updated spec")
 	nSpecs := r.N(800, 24000)
 	nUpd := r.N(112, 3360)
+	nFwd := r.N(120, 3600)
 	sizes := []int{0, 0, 1, 2, 8, 64}
 	updSizes := []int{0, 2, 8, 64, 64, 64}
 	missing := map[string]bool{"gone": true}
-	for i := 0; i < nSpecs+nUpd; i++ {
+	for i := 0; i < nSpecs+nUpd+nFwd; i++ {
 		if !r.Mine(i) {
 			continue
 		}
 		rng := r.CaseRand(i)
-		withUpdates := i >= nSpecs
+		withUpdates := i >= nSpecs && i < nSpecs+nUpd
+		withFwd := i >= nSpecs+nUpd
 		stacked := i%3 == 2
 		var spec *gSpec
 		if stacked {
@@ -468,6 +523,28 @@ func TestVerif_C05_Mux(t *testing.T) {
 		if withUpdates {
 			spec.CacheSize = updSizes[rng.Intn(len(updSizes))]
 		}
+		if withFwd {
+			// a filter at the server level, on every rule, or on every path, in turn
+			switch fresh := func(f *gIPF) *gIPF {
+				if f == nil {
+					f = genIPF(rng)
+				}
+				return f
+			}; (i - nSpecs - nUpd) % 3 {
+			case 0:
+				spec.IPF = fresh(spec.IPF)
+			case 1:
+				for ri := range spec.Rules {
+					spec.Rules[ri].IPF = fresh(spec.Rules[ri].IPF)
+				}
+			default:
+				for ri := range spec.Rules {
+					for pi := range spec.Rules[ri].Paths {
+						spec.Rules[ri].Paths[pi].IPF = fresh(spec.Rules[ri].Paths[pi].IPF)
+					}
+				}
+			}
+		}
 		twinSpec := c05Strip(spec)
 		if withUpdates {
 			r.Case(i, map[string]interface{}{"kind": "update-history", "initial_spec": spec})
@@ -483,6 +560,9 @@ func TestVerif_C05_Mux(t *testing.T) {
 			continue
 		}
 		env := &c05Env{r: r, missing: missing, spec: spec, twinSpec: twinSpec, mapper: mapper, m: m, tw: tw}
+		if withFwd {
+			env.fwdShape = map[string]string{}
+		}
 		pool := make([]gReq, 0, 12)
 		nShapes, nOthers := 8, 3
 		if stacked {
@@ -495,6 +575,10 @@ func TestVerif_C05_Mux(t *testing.T) {
 				if rng.Intn(4) == 0 {
 					q.Host = "a.com:8080"
 				}
+			}
+			if withFwd {
+				shape := genFwdClient(rng, &q)
+				env.fwdShape[c05FwdKey(&q)] = shape
 			}
 			pool = append(pool, q)
 		}
@@ -512,6 +596,10 @@ func TestVerif_C05_Mux(t *testing.T) {
 			}
 			v.Headers = kept
 			v.RemoteAddr = net.JoinHostPort(pick(rng, genClients), "77")
+			if withFwd {
+				shape := genFwdClient(rng, &v)
+				env.fwdShape[c05FwdKey(&v)] = shape
+			}
 			pool = append(pool, v)
 		}
 		if !withUpdates {
@@ -555,6 +643,17 @@ func TestVerif_C05_Mux(t *testing.T) {
 		r.Require("update_denies_client_asking_route_cached_before_update:changed="+l, 1)
 	}
 	r.Require("update_admits_client_asking_route_cached_before_update", 1)
+	for _, sh := range []string{"xff-one-public", "xff-one-private(none)", "xff-several-all-private(none)", "xff-unparsable(none)", "xff-unparsable-and-private(none)",
+		"xff-private-then-public", "xff-public-then-private", "xff-unparsable-then-public", "xff-nothing-usable+x-real-ip", "x-real-ip-only", "x-real-ip-unparsable",
+		"xff-empty+x-real-ip", "xff-empty-remoteaddr"} {
+		r.Require("fwd_shape_"+sh, 1)
+	}
+	for _, l := range []string{"server", "rule", "path"} {
+		r.Require("client_address_none_refused_by_blockByDefault_true_of_"+l+"_filter", 1)
+		r.Require("client_address_none_let_through_by_blockByDefault_false_of_"+l+"_filter", 1)
+	}
+	r.Require("client_address_unparsable_refused_by_blockByDefault_true_of_server_filter", 1)
+	r.Require("client_address_none_refused_by_blockByDefault_true_key_in_route_cache", 1)
 }
 
 func minIntC05(a, b int) int {
